@@ -713,6 +713,8 @@ pub fn judge(rec: &StepRec, exp: &Exp) -> Vec<Problem> {
         return out;
     }
     if exp.panics {
+        // returned although a panic is documented: whatever it did, ownership must still balance
+        out.extend(balance(rec));
         return out;
     }
     // trace
